@@ -23,7 +23,9 @@ func findCommitsToRemove(db objects.Store, rs ref.Store, pbarAdd func()) (commit
 		return
 	}
 	for _, sum := range refMap {
-		q.Insert(sum)
+		if err = q.Insert(sum); err != nil {
+			return nil, nil, err
+		}
 	}
 	commitKeys, err := objects.GetAllCommitKeys(db)
 	if err != nil {
@@ -41,7 +43,9 @@ func findCommitsToRemove(db objects.Store, rs ref.Store, pbarAdd func()) (commit
 		ind := sort.Search(len(commitKeys), func(i int) bool {
 			return string(commitKeys[i]) >= string(sum)
 		})
-		commitFound[ind] = true
+		if ind < len(commitKeys) && string(commitKeys[ind]) == string(sum) {
+			commitFound[ind] = true
+		}
 	}
 	for i, found := range commitFound {
 		if !found {
@@ -67,7 +71,10 @@ func pruneTables(db objects.Store, survivingCommits [][]byte, allBlockKeys, allB
 				return err
 			}
 			i := sort.Search(len(tableHashes), func(i int) bool { return string(tableHashes[i]) >= string(commit.Table) })
-			tableFound[i] = true
+			// the table of a shallow commit is not in the store
+			if i < len(tableHashes) && string(tableHashes[i]) == string(commit.Table) {
+				tableFound[i] = true
+			}
 		}
 		for i, keep := range tableFound {
 			sum := tableHashes[i]
@@ -91,13 +98,17 @@ func pruneTables(db objects.Store, survivingCommits [][]byte, allBlockKeys, allB
 					j := sort.Search(len(allBlockKeys), func(i int) bool {
 						return string(allBlockKeys[i]) >= string(blk)
 					})
-					keepBlock[j] = true
+					if j < len(allBlockKeys) && string(allBlockKeys[j]) == string(blk) {
+						keepBlock[j] = true
+					}
 				}
 				for _, blk := range ts.BlockIndices {
 					j := sort.Search(len(allBlockIdxKeys), func(i int) bool {
 						return string(allBlockIdxKeys[i]) >= string(blk)
 					})
-					keepBlockIndex[j] = true
+					if j < len(allBlockIdxKeys) && string(allBlockIdxKeys[j]) == string(blk) {
+						keepBlockIndex[j] = true
+					}
 				}
 			}
 		}
